@@ -164,6 +164,7 @@ class Producer(object):
         self._waitingByteCount = 0
         self._outstanding = []  # All currently outstanding requests
         self._batch_send_d = None  # Outstanding client request to send msgs
+        self.stopping = False  # Set by stop(): no further batches are sent
 
         # Are we compressing messages, or just sending 'raw'?
         if codec is None:
@@ -389,8 +390,9 @@ class Producer(object):
             topicPart = TopicAndPartition(topic, partition)
             payloads.append(req)
             payloadsByTopicPart[topicPart] = req
-        # Make sure we have some payloads to send
-        if not payloads:
+        # Make sure we have some payloads to send, and that stop() wasn't
+        # called while the partitions were being looked up
+        if not payloads or self.stopping:
             return
         # send the request
         d = self.client.send_produce_request(
@@ -442,6 +444,10 @@ class Producer(object):
         Note, the send will be delayed (triggered by completion or failure of
         previous) if we are currently trying to complete the last batch send.
         """
+        # Once stop() has been called nothing further is transmitted; the
+        # requests still queued are failed by stop() itself.
+        if self.stopping:
+            return
         # We can be triggered by the LoopingCall, and have nothing to send...
         # Or, we've got SendRequest(s) to send, but are still processing the
         # previous batch...
